@@ -157,16 +157,21 @@ def compute_pipeline_semantic_id(canonical_spec: Dict[str, Any]) -> str:
     """
 
     # Use the structure of nodes (names, inputs, outputs) but not runtime details
-    pipeline_structure = {
-        "nodes": [
-            {
-                "name": node.get("name"),
-                "node_uuid": node.get("node_uuid"),
-                "payload_from": node.get("payload_from"),
-            }
-            for node in canonical_spec.get("nodes", [])
-        ]
-    }
+    nodes: List[Dict[str, Any]] = []
+    for node in canonical_spec.get("nodes", []):
+        entry: Dict[str, Any] = {
+            "name": node.get("name"),
+            "node_uuid": node.get("node_uuid"),
+            "payload_from": node.get("payload_from"),
+        }
+        # Preprocessor semantics (e.g. derive.parameter_sweep) are not part of
+        # the node UUID; roll their sanitized fingerprint in here. Nodes without
+        # a preprocessor contribute nothing, so their pipelines keep their IDs.
+        pre = node.get("preprocessor_metadata")
+        if isinstance(pre, dict):
+            entry["node_semantic_id"] = compute_node_semantic_id(pre)
+        nodes.append(entry)
+    pipeline_structure = {"nodes": nodes}
     payload = json.dumps(pipeline_structure, sort_keys=True, separators=(",", ":"))
     return (
         "plsemid-"
